@@ -384,6 +384,14 @@ def run(chk):
                 r5.fail("%s:%s" % (f.qualname, construct), msg, fn=f, node=node)
             if not bad:
                 r5.ok("%s: sendall/recv never reached with self.sock None (initial sock %s)" % (f.qualname, "open" if old else "None"))
+    _r7(chk)
+
+
+def _r7(chk):
+    from . import rules_C01, report
+
+    r7 = chk.rule("C06.R7", "errors close: after any failed exchange (re-raised or swallowed by ignore_exc) the socket was closed, so the next call reconnects (= C01.R1)")
+    report.include_rules(chk, r7, rules_C01, ("C01.R1",), "a failed exchange must leave self.sock None so that the next call opens a fresh connection")
 
 
 def exchange_functions(prog):
